@@ -187,21 +187,31 @@ pub fn step(ctx: &Ctx, w: &World, ev: &mut Ev) {
             let pf = &w.addrs.pricefeed;
             let count = series.len();
             let distinct = series.iter().map(|x| x.1).collect::<std::collections::BTreeSet<_>>().len();
-            if let Ok(x) = w.q(pf, json!({"get_price": {"key": key}})) {
-                let got = pu(&x["price"]);
-                ev.eval(distinct >= 2, &("feed_latest", count.min(4)), || json!({"source": "feed", "query": "latest", "got": got.to_string()}));
-                if got != series[count - 1].1 {
-                    ev.violation("feed_latest", "mismatch", json!({"got": got.to_string(), "last_submission": series[count - 1].1.to_string()}));
+            match w.q(pf, json!({"get_price": {"key": key}})) {
+                Ok(x) => {
+                    let got = pu(&x["price"]);
+                    ev.eval(distinct >= 2, &("feed_latest", count.min(4)), || json!({"source": "feed", "query": "latest", "got": got.to_string()}));
+                    if got != series[count - 1].1 {
+                        ev.violation("feed_latest", "mismatch", json!({"got": got.to_string(), "last_submission": series[count - 1].1.to_string()}));
+                    }
+                }
+                Err(e) => {
+                    // something was submitted: the latest query has to return it (whatever its value, zero included)
+                    ev.eval(true, &("feed_latest_refused", count.min(4)), || json!({"source": "feed", "query": "latest", "submissions": count, "error": e}));
+                    ev.violation("feed_latest", "refused_with_submissions", json!({"submissions": count, "last_submission": series[count - 1].1.to_string(), "error": e}));
                 }
             }
-            let nb = (ctx.idx % count) as u128;
+            // n rounds back, for an n that walks through the whole history (also its far end)
+            let nb = match ctx.idx % 3 {
+                0 => (ctx.idx % count) as u128,
+                1 => (count - 1) as u128,
+                _ => ((count - 1) as u128).saturating_sub((ctx.idx % 7) as u128),
+            };
             let prev = w.q(pf, json!({"get_previous_price": {"key": key, "num_round_back": nb.to_string()}}));
             if let Err(e) = &prev {
-                if !e.starts_with("panic") {
-                    // 0 <= n < number of submissions: the round exists, the query has to serve it
-                    ev.eval(true, &("feed_previous_refused", nb.min(3) as u64), || json!({"source": "feed", "query": "previous", "n": nb.to_string(), "submissions": count, "error": e}));
-                    ev.violation("feed_previous", "refused_within_history", json!({"n": nb.to_string(), "submissions": count, "error": e}));
-                }
+                // 0 <= n < number of submissions: the round exists, the query has to serve it (a trapped query serves nothing)
+                ev.eval(true, &("feed_previous_refused", nb.min(3) as u64), || json!({"source": "feed", "query": "previous", "n": nb.to_string(), "submissions": count, "error": e}));
+                ev.violation("feed_previous", if e.starts_with("panic") { "trapped_within_history" } else { "refused_within_history" }, json!({"n": nb.to_string(), "submissions": count, "error": e}));
             }
             if let Ok(x) = prev {
                 let got = pu(&x["price"]);
